@@ -62,3 +62,15 @@ Fixpoint parse_loop (fuel : nat) (secrets : list Z) (el nextLen : Z) (isLen : bo
 Definition parse_secrets (secrets : list Z) : Outcome (list (list Z)) :=
   if zlength secrets <? 2 then Err
   else parse_loop (2 * length secrets + 16) secrets 0 0 true [].
+
+(* crypto/dlnproof/proof.go UnmarshalDLNProof: the wire parts as numbers, parsed by ParseSecrets; exactly two parts; each is
+   copied into a 128-slot array and must fill it (`copy(...) != Iterations`), so a longer part is accepted and truncated *)
+Definition dln_iterations : nat := 128.
+Definition dln_unmarshal (wire : list Z) : Outcome (list Z * list Z) :=
+  parts <- parse_secrets wire ;;
+  match parts with
+  | [a; t] =>
+      if orb (Nat.ltb (length a) dln_iterations) (Nat.ltb (length t) dln_iterations) then Err
+      else Ok (firstn dln_iterations a, firstn dln_iterations t)
+  | _ => Err
+  end.
